@@ -18,7 +18,7 @@
 EXTENDS Integers, Sequences, FiniteSets, TLC, Json
 
 CONSTANTS Subs, Objs, Bcasters, MaxOps, MaxEv,
-          AllowStop, AllowRespawn, AllowRevive, SendTargets, SendSenders, SendPayloads,
+          AllowStop, AllowRespawn, AllowRevive, RemoteSubs, SendTargets, SendSenders, SendPayloads,
           KeyByValue, DropDead, Export
 
 VARIABLES inbox,    \* the stream's inbox
@@ -73,7 +73,7 @@ Broadcast(b) ==
 (* a subscriber stops (Poison, awaited) without unsubscribing; at most one such subscriber at a time keeps the
    order of the generated dead letters deterministic *)
 StopSub(p) ==
-  /\ CanOp /\ AllowStop /\ alive[p] /\ \A q \in Subs : alive[q] \/ (\A o \in Objs \cup {0} : <<q, o>> \notin subs)
+  /\ CanOp /\ AllowStop /\ alive[p] /\ p \notin RemoteSubs /\ \A q \in Subs : alive[q] \/ (\A o \in Objs \cup {0} : <<q, o>> \notin subs)
   /\ alive' = [alive EXCEPT ![p] = FALSE]
   /\ Op([op |-> "stop", p |-> p, o |-> 0, b |-> "-", target |-> "-", sender |-> "-", id |-> 0])
   /\ UNCHANGED <<inbox, subs, got, want, asub, nev, nmsg, gen>>
@@ -81,7 +81,7 @@ StopSub(p) ==
 (* a subscriber stops and, from inside its Stopped handler, spawns a successor under the same id which subscribes:
    the successor's Subscribe reaches the stream before the ActorStoppedEvent of the old incarnation does *)
 StopRespawn(p) ==
-  /\ CanOp /\ AllowRespawn /\ alive[p]
+  /\ CanOp /\ AllowRespawn /\ alive[p] /\ p \notin RemoteSubs
   /\ inbox' = Append(inbox, [t |-> "sub", p |-> p, o |-> 1, e |-> UserEv("-", 0)])
   /\ Op([op |-> "respawn", p |-> p, o |-> 1, b |-> "-", target |-> "-", sender |-> "-", id |-> 0])
   /\ UNCHANGED <<subs, alive, got, want, asub, nev, nmsg, gen>>
